@@ -53,6 +53,9 @@ pub trait Subject {
     /// reference rendering of an interpolated variant (generator-written `write!`)
     fn ref_fmt(&self, s: &mut dyn fmt::Write) -> fmt::Result;
     fn debug(&self) -> String;
+    /// `value.to_string()` written with method-call syntax on the concrete type (an inherent method of
+    /// that name would win over the blanket `ToString`)
+    fn direct_to_string(&self) -> String;
 }
 
 pub struct VariantInfo {
@@ -273,7 +276,15 @@ pub fn exec(case: &Case, sc: &Script, mut stats: Option<&mut Stats>, keep_log: b
                 st.hit(R_TO_STRING);
                 st.hit(R_FAULT_FREE);
             }
-            let got = match catch(|| subject.display().to_string()) {
+            let got = match catch(|| {
+                let a = subject.display().to_string();
+                let b = subject.direct_to_string();
+                if a == b {
+                    a
+                } else {
+                    format!("<value.to_string() = {:?} but ToString through &dyn Display = {:?}>", b, a)
+                }
+            }) {
                 Ok(g) => {
                     if !ref_ok {
                         return (Err(mk_fail("error_swallowed", "to_string() panics (a field's Display returned Err)".into(), format!("{:?}", g))), info);
